@@ -10,7 +10,7 @@ arithmetic), objective equal to the constructed optimum and to scipy.optimize.nn
 optimality of single calls with the default n_iter_max / tol / lr; admm == numpy.linalg.solve.
 Problems are CONSTRUCTED from a chosen KKT pair (x*, mu*) over small dyadic rationals, so the exact optimum is known.
 Static tie (C13_tie.py): the row update / stopping rule / cold start of hals_nnls, the step / momentum / norm / stopping rule of
-fista and the n_const=None branch of admm are translated from the Python ast of the current source on every run and proved
+fista, the interpolation step of active_set_nnls and the n_const=None branch of admm are translated from the Python ast of the current source on every run and proved
 equal to the model's terms by coqc (fail closed).
 corpus/C13/*.json (the two defects repaired by 5f3eaf7 and dadc3ff) runs first.  A per-case timeout is counted as
 skipped (histogram "skipped"), never a verdict."""
@@ -917,7 +917,7 @@ def run(chk):
     chk.trusted = ["scipy.optimize.nnls as independent reference (objective value only)",
                    "static tie (C13_tie.py): the translator from the Python ast to Gallina terms is trusted to render the arithmetic faithfully (it knows only +, -, *, /, clip, where, dot, "
                    "transpose, sum, abs, copy, solve and fails closed on anything else); what it does not translate (rec_error, nonzero_rows, callback / exact, list branch, default step, "
-                   "active_set_nnls, admm's x_split) is tied by the differential correspondence only",
+                   "active_set_nnls apart from its interpolation step, admm's x_split) is tied by the differential correspondence only",
                    "the sqrt-defined FISTA momentum sequence and the leading singular value (numpy 2-norm) enter the model as recorded data",
                    "stopping decisions: when every decision e < t of the model's run is clear-cut (|e - t| > 1e-6 (|e| + |t|)) the implementation must return the model's result; only borderline decisions (incl. e = t = 0) fall back to accepting any prefix iterate"]
     return chk.finish(CLASSIFIERS)
